@@ -613,3 +613,234 @@ var c06MinerPayoutsProp = kit.Prop[MinerPayoutCase]{
 }
 
 func TestC06MinerPayouts(t *testing.T) { c06MinerPayoutsProp.Main(t) }
+
+// NoOutputCase: the wallet pays for a confirmed transaction that has no
+// siacoin output at all - a whole output burnt as miner fee, or an exactly
+// funded contract formation / renewal without change - in the v1 and the v2
+// form; optionally a heavier fork without it reverts it again.
+type NoOutputCase struct {
+	Maturity int  `json:"maturity"`
+	V2       bool `json:"v2"`
+	Kind     int  `json:"kind"` // 0 burn, 1 exactly funded formation, 2 exactly funded renewal (v2 only; v1: formation)
+	Pick     int  `json:"pick"` // which genesis output of the wallet
+	Fork     bool `json:"fork"`
+	Chunk1   int  `json:"chunk1"`
+	Chunk2   int  `json:"chunk2"`
+	MidSync  bool `json:"mid_sync"`
+}
+
+func genNoOutput(t *rapid.T) NoOutputCase {
+	return NoOutputCase{
+		Maturity: rapid.IntRange(1, 3).Draw(t, "maturity"),
+		V2:       rapid.Bool().Draw(t, "v2"),
+		Kind:     kit.Uniform(t, 3, "kind"),
+		Pick:     rapid.IntRange(0, 5).Draw(t, "pick"),
+		Fork:     kit.Chance(t, 50, "fork"),
+		Chunk1:   c06Chunks[kit.Uniform(t, len(c06Chunks), "chunk1")],
+		Chunk2:   c06Chunks[kit.Uniform(t, len(c06Chunks), "chunk2")],
+		MidSync:  kit.Chance(t, 70, "midsync"),
+	}
+}
+
+func runNoOutput(c NoOutputCase, cs *kit.CaseStats) error {
+	ns := kit.NetSpec{Maturity: clampInt(c.Maturity, 1, 3), Allow: 500, ReqOff: 10, CutOff: 10}
+	if c.V2 {
+		ns.Allow, ns.ReqOff, ns.CutOff = 1, 0, 0
+	}
+	tr := kit.BuildTree(kit.TreeCase{Net: ns})
+	w := kit.Actors[payoutWallet]
+	ts := tr.Genesis.Timestamp
+	add := func(parent *kit.TNode, v1 []types.Transaction, v2 []types.V2Transaction, salt int) (*kit.TNode, error) {
+		b, ok := kit.Normalize(kit.AssembleBlock(parent.Ledger.State, ts.Add(time.Duration(int(parent.Height)+1+salt)*time.Second), kit.Actors[3].Addr, v1, v2, 0))
+		if !ok {
+			return nil, fmt.Errorf("INFRA: block has no stable encoding")
+		}
+		n := tr.AddDynamic(b)
+		if n.Ledger == nil {
+			return nil, fmt.Errorf("INFRA: hand-built block at height %d is invalid: %v", parent.Height+1, n.Err)
+		}
+		return n, nil
+	}
+	walletOutputs := func(n *kit.TNode) (out []types.SiacoinElement) {
+		for _, id := range n.Ledger.SortedSCIDs() {
+			if e := n.Ledger.SCE[id]; e.SiacoinOutput.Address == w.Addr && e.MaturityHeight <= n.Height+1 {
+				out = append(out, e)
+			}
+		}
+		return
+	}
+	kind := modInt(c.Kind, 3)
+	var main []*kit.TNode
+	cur := tr.Root
+	step := func(v1 []types.Transaction, v2 []types.V2Transaction) error {
+		n, err := add(cur, v1, v2, 0)
+		if err != nil {
+			return err
+		}
+		main = append(main, n)
+		cur = n
+		return nil
+	}
+	forkFrom := tr.Root // the fork leaves out everything from here on
+	if !c.V2 {
+		outs := walletOutputs(cur)
+		in := outs[modInt(c.Pick, len(outs))]
+		txn := types.Transaction{SiacoinInputs: []types.SiacoinInput{{ParentID: in.ID, UnlockConditions: w.UC}}}
+		if kind == 0 {
+			txn.MinerFees = []types.Currency{in.SiacoinOutput.Value}
+			cs.Class("v1: whole output burnt as miner fee")
+		} else {
+			fc := types.FileContract{Filesize: 64, FileMerkleRoot: v1SingleLeafRoot(kit.LeafData(2)), WindowStart: 4, WindowEnd: 6, Payout: in.SiacoinOutput.Value, UnlockHash: w.Addr}
+			rest := fc.Payout.Sub(cur.Ledger.State.FileContractTax(fc))
+			fc.ValidProofOutputs = []types.SiacoinOutput{{Address: kit.Actors[2].Addr, Value: rest}}
+			fc.MissedProofOutputs = []types.SiacoinOutput{{Address: kit.Actors[3].Addr, Value: rest}}
+			txn.FileContracts = []types.FileContract{fc}
+			cs.Class("v1: exactly funded contract formation without change")
+		}
+		signV1Whole(cur.Ledger.State, &txn, types.Hash256(in.ID), w.SK)
+		if err := step([]types.Transaction{txn}, nil); err != nil {
+			return err
+		}
+	} else {
+		const renter, host = 0, 2
+		spendExact := func(build func(l *kit.TNode, in types.SiacoinElement) (types.V2Transaction, error), want types.Currency) error {
+			// a transaction of the wallet first makes an output of exactly the wanted value
+			outs := walletOutputs(cur)
+			g := outs[modInt(c.Pick, len(outs))]
+			if g.SiacoinOutput.Value.Cmp(want) <= 0 {
+				g = outs[len(outs)-1]
+				for _, o := range outs {
+					if o.SiacoinOutput.Value.Cmp(g.SiacoinOutput.Value) > 0 {
+						g = o
+					}
+				}
+			}
+			prep := types.V2Transaction{SiacoinInputs: []types.V2SiacoinInput{{Parent: g.Copy()}},
+				SiacoinOutputs: []types.SiacoinOutput{{Address: w.Addr, Value: want}, {Address: w.Addr, Value: g.SiacoinOutput.Value.Sub(want)}}}
+			kit.SignV2(cur.Ledger.State, &prep)
+			if err := step(nil, []types.V2Transaction{prep}); err != nil {
+				return err
+			}
+			forkFrom = cur
+			x, ok := cur.Ledger.SCE[prep.SiacoinOutputID(prep.ID(), 0)]
+			if !ok {
+				return fmt.Errorf("INFRA: prepared output missing")
+			}
+			txn, err := build(cur, x)
+			if err != nil {
+				return err
+			}
+			if len(txn.SiacoinOutputs) != 0 {
+				return fmt.Errorf("INFRA: transaction has siacoin outputs")
+			}
+			return step(nil, []types.V2Transaction{txn})
+		}
+		switch kind {
+		case 0:
+			outs := walletOutputs(cur)
+			in := outs[modInt(c.Pick, len(outs))]
+			txn := types.V2Transaction{SiacoinInputs: []types.V2SiacoinInput{{Parent: in.Copy()}}, MinerFee: in.SiacoinOutput.Value}
+			kit.SignV2(cur.Ledger.State, &txn)
+			cs.Class("v2: whole output burnt as miner fee")
+			if err := step(nil, []types.V2Transaction{txn}); err != nil {
+				return err
+			}
+		case 1:
+			leaf := kit.LeafData(6)
+			fc := types.V2FileContract{Capacity: 64, Filesize: 64, FileMerkleRoot: cur.Ledger.State.StorageProofLeafHash(leaf[:]), ProofHeight: 6, ExpirationHeight: 8,
+				RenterOutput: types.SiacoinOutput{Address: kit.Actors[renter].Addr, Value: types.Siacoins(20)}, HostOutput: types.SiacoinOutput{Address: kit.Actors[host].Addr, Value: types.Siacoins(10)},
+				MissedHostValue: types.Siacoins(4), TotalCollateral: types.Siacoins(5), RenterPublicKey: kit.Actors[renter].PK, HostPublicKey: kit.Actors[host].PK}
+			h := cur.Ledger.State.ContractSigHash(fc)
+			fc.RenterSignature, fc.HostSignature = kit.Actors[renter].SK.SignHash(h), kit.Actors[host].SK.SignHash(h)
+			cost := fc.RenterOutput.Value.Add(fc.HostOutput.Value).Add(cur.Ledger.State.V2FileContractTax(fc))
+			cs.Class("v2: exactly funded contract formation without change")
+			if err := spendExact(func(l *kit.TNode, in types.SiacoinElement) (types.V2Transaction, error) {
+				txn := types.V2Transaction{SiacoinInputs: []types.V2SiacoinInput{{Parent: in.Copy()}}, FileContracts: []types.V2FileContract{fc}}
+				kit.SignV2(l.Ledger.State, &txn)
+				return txn, nil
+			}, cost); err != nil {
+				return err
+			}
+		default:
+			// a contract of actors 0 and 2 exists; the wallet pays for its renewal
+			bb := kit.NewBlockBuilder(cur.Ledger)
+			if !bb.Add(kit.Intent{Kind: "v2form", Who: renter, To: host, Amt: 2, A: 3, B: 2}) {
+				return fmt.Errorf("INFRA: the kit could not form a contract: %v", bb.Skipped)
+			}
+			if err := step(nil, bb.V2Txns); err != nil {
+				return err
+			}
+			renew := func(l *kit.TNode) (types.V2Transaction, types.Currency, error) {
+				rb := kit.NewBlockBuilder(l.Ledger)
+				if !rb.Add(kit.Intent{Kind: "v2renew", Who: renter, Amt: 1, A: 1, B: 1}) {
+					return types.V2Transaction{}, types.ZeroCurrency, fmt.Errorf("INFRA: the kit could not renew: %v", rb.Skipped)
+				}
+				txn := rb.V2Txns[0]
+				need := txn.SiacoinInputs[0].Parent.SiacoinOutput.Value
+				for _, o := range txn.SiacoinOutputs {
+					need = need.Sub(o.Value)
+				}
+				return txn, need, nil
+			}
+			_, need, err := renew(cur)
+			if err != nil {
+				return err
+			}
+			cs.Class("v2: exactly funded contract renewal without change")
+			if err := spendExact(func(l *kit.TNode, in types.SiacoinElement) (types.V2Transaction, error) {
+				txn, need2, err := renew(l)
+				if err != nil {
+					return txn, err
+				}
+				if !need2.Equals(need) || !need.Equals(in.SiacoinOutput.Value) {
+					return txn, fmt.Errorf("INFRA: renewal cost changed (%v, %v, %v)", need, need2, in.SiacoinOutput.Value)
+				}
+				txn.SiacoinInputs = []types.V2SiacoinInput{{Parent: in.Copy()}}
+				txn.SiacoinOutputs = nil
+				kit.SignV2(l.Ledger.State, &txn)
+				return txn, nil
+			}, need); err != nil {
+				return err
+			}
+		}
+	}
+	for i := 0; i < 2; i++ {
+		if err := step(nil, nil); err != nil {
+			return err
+		}
+	}
+	cs.NonTrivial()
+	var second []*kit.TNode
+	if c.Fork {
+		cur = forkFrom
+		for int(cur.Height) < int(main[len(main)-1].Height)+2 {
+			n, err := add(cur, nil, nil, 7)
+			if err != nil {
+				return err
+			}
+			second = append(second, n)
+			cur = n
+		}
+		cs.Class("fork-reverts-the-transaction")
+	}
+	// everything up to (and including) forkFrom is the common prefix
+	var prefix []types.Block
+	var first []*kit.TNode
+	for _, n := range main {
+		if n.Height <= forkFrom.Height {
+			prefix = append(prefix, n.Block)
+		} else {
+			first = append(first, n)
+		}
+	}
+	return driveBranches(tr, w, prefix, first, second, c.MidSync, c.Chunk1, c.Chunk2, cs)
+}
+
+var c06NoOutputProp = kit.Prop[NoOutputCase]{
+	ID:   "C06",
+	Rule: "the wallet pays for a confirmed transaction without any siacoin output: a whole output burnt as miner fee (v1, v2), an exactly funded contract formation without change (v1: payout = the input's value; v2: an output of exactly renter + host output + tax is made first) and an exactly funded v2 renewal of somebody else's contract; two more blocks, optionally a heavier fork that leaves the transaction out; full C06 oracle after each sync (the transaction event must exist with outflow = the spent value and inflow 0).",
+	Gen:  genNoOutput,
+	Run:  runNoOutput,
+}
+
+func TestC06NoOutputs(t *testing.T) { c06NoOutputProp.Main(t) }
